@@ -24,6 +24,9 @@ class SvSyntaxError(Exception):
 class IllegalLiteral(SvSyntaxError):
   """e.g. 8'dc8: hexadecimal digits after 'd"""
   kind = 'illegal-literal'
+class LiteralTarget(SvSyntaxError):
+  """assign 8'd7 = x;  /  assign { 4'd1, 4'd2 } = ...; : the left-hand side of an assignment must be a net or variable"""
+  kind = 'literal-as-assignment-target'
 class SelectOnExpression(SvSyntaxError):
   """`( e )[i]`, `N'( e )[i]`, `N'dV[i]`: IEEE 1800-2017 A.8.4 allows a select only after a (hierarchical) identifier or a
   concatenation — the text is not SystemVerilog"""
@@ -460,7 +463,19 @@ class Parser:
     raise s.err('expected = or <= after an lvalue')
   # -- expressions
   def lvalue(s):
-    if s.at('{'): raise Unmodelled('concatenation as assignment target')
+    k, v, ln = s.peek()
+    if k in ('slit', 'num', 'ulit'): raise LiteralTarget(f'line {ln}: a literal is the target of an assignment: `{v} = ...`')
+    if s.at('{'):
+      save = s.i
+      try: e = s.primary()
+      except SvSyntaxError: e = None
+      lits = []
+      if e is not None: walk_exprs(e, lambda x: lits.append(x) if x[0] in ('lit', 'num') and True else None)
+      s.i = save
+      def only_lits(x):
+        return x[0] in ('lit', 'num') or (x[0] == 'concat' and all(only_lits(y) for y in x[1])) or (x[0] == 'repl' and only_lits(x[2]))
+      if e is not None and only_lits(e): raise LiteralTarget(f'line {ln}: a concatenation of literals is the target of an assignment')
+      raise Unmodelled('concatenation as assignment target')
     name = s.ident()
     return s.selects(('id', s.local_rename.get(name, name)))
   def selects(s, e):
